@@ -1114,8 +1114,15 @@ def gen_stock_history(rng, n):
         elif r < 0.60:
             ops.append("key %d 0" % rng.choice([XK["space"], XK["Return"], XK["BackSpace"], XK["BackSpace"], XK["Escape"], XK["Down"], XK["Up"],
                                                 XK["Next"], XK["Prior"], XK["Left"], XK["Right"], XK["Home"], XK["End"], XK["Delete"]]))
-        elif r < 0.66:
+        elif r < 0.63:
             ops.append("key %d 0" % ord(rng.choice("1234567890")))
+        elif r < 0.66:
+            # the editor's and navigator's modified keys (syllable-wise deletion and moves, the other commit actions) and the
+            # emacs-style bindings of the default key binder preset
+            ops.append(rng.choice(["key %d 4" % XK["BackSpace"], "key %d 4" % XK["BackSpace"], "key %d 1" % XK["BackSpace"],
+                                   "key %d 4" % XK["Delete"], "key %d 1" % XK["Delete"], "key %d 4" % XK["Left"], "key %d 4" % XK["Right"],
+                                   "key %d 4" % XK["Return"], "key %d 1" % XK["Return"], "key %d 5" % XK["Return"],
+                                   "key %d 4" % ord(rng.choice("aebfnpdhgkv")), "key %d 8" % ord(rng.choice("bfv"))]))
         elif r < 0.71:
             k = rng.choice([0xffe1, 0xffe2, 0xffe3, 0xffe5])      # Shift_L, Shift_R, Control_L, Caps_Lock taps
             ops += ["key %d 0" % k, "key %d %d" % (k, RELEASE)]
